@@ -377,6 +377,10 @@ func (fc *FnCtx) applyContract(cs *spec.FuncSpec, name string, args []Val, resT 
 		fc.ownershipHavoc(pre, st)
 	}
 	for _, e := range cs.Ensures {
+		if mentionsCalleeInternals(e.E) {
+			// a clause about the callee's own call sites (callres, called, ...) says nothing to a caller
+			continue
+		}
 		ec := &evalCtx{fc: fc, vars: vars, cur: st, old: pre, assumeMode: true}
 		fc.assume(g, ec.boolean(e.E), "ensures of "+name+": "+e.Text)
 	}
@@ -855,4 +859,20 @@ func (fc *FnCtx) markEscaped(v Val) {
 			fc.markEscaped(b)
 		}
 	}
+}
+
+// mentionsCalleeInternals: does a clause refer to the call sites inside the
+// function it belongs to? Such clauses are proved for the function but are not
+// part of what its callers may assume.
+func mentionsCalleeInternals(e spec.Expr) bool {
+	found := false
+	walk(e, func(x spec.Expr) {
+		if c, ok := x.(*spec.Call); ok {
+			switch c.Fun {
+			case "callres", "callresb", "called", "panicked", "panicval":
+				found = true
+			}
+		}
+	})
+	return found
 }
